@@ -47,25 +47,30 @@ Proof.
   destruct (vcaps caps); discriminate.
 Qed.
 
-Lemma native_no_panic l sc caps : s_rev sc <> RevBadShape -> native l sc caps <> NPanic.
+Lemma rev_failed_fixed r : rev_failed true r <> None.
+Proof. destruct r; discriminate. Qed.
+
+(* since fix d78db00 no answer of the revocation validator reaches a dereference *)
+Lemma native_no_panic l sc caps : native l sc caps <> NPanic.
 Proof.
-  intros H. unfold native.
-  repeat (brk1; try discriminate). all: try congruence.
+  unfold native, native_gen.
+  pose proof (rev_failed_fixed (s_rev sc)) as Hr.
+  destruct (rev_failed true (s_rev sc)) as [f|]; [|congruence].
+  repeat (brk1; try discriminate).
 Qed.
 
 Lemma process_signature_no_panic l pm sc :
   pm_ok pm = true -> sc_wf sc = true -> process_signature l pm sc <> PSPanic.
 Proof.
-  intros Hpm Hsc. unfold sc_wf in Hsc. apply andb_prop in Hsc as [Hresp Hrev].
-  assert (Hr : s_rev sc <> RevBadShape) by (intros E; rewrite E in Hrev; discriminate).
+  intros Hpm Hsc. unfold sc_wf in Hsc. rename Hsc into Hresp.
   unfold process_signature.
   destruct (s_sig sc); try discriminate.
   pose proof (discover_no_panic pm sc Hpm) as Hd.
   destruct (discover pm sc) as [|e| |caps] eqn:Ed; try congruence; try discriminate.
-  - pose proof (native_no_panic l sc [] Hr) as Hn.
+  - pose proof (native_no_panic l sc []) as Hn.
     destruct (native l sc []) eqn:En; try congruence; try discriminate.
     cbn. destruct (s_crit sc); discriminate.
-  - pose proof (native_no_panic l sc caps Hr) as Hn.
+  - pose proof (native_no_panic l sc caps) as Hn.
     destruct (native l sc caps) eqn:En; try congruence; try discriminate.
     destruct (caps_to_verify l caps) eqn:Ec.
     + cbn. discriminate.
@@ -762,10 +767,23 @@ Definition sc_rev (r : revr) : scenario :=
 Theorem contracts_needed :
   model (i_base EVerify (v_strict (PMPlugin MetaNil)) VLib (sc_plugin (PResp true (Some true) (Some true)))) = OPanic /\
   model (i_base EVerify (v_strict (PMPlugin (Meta true [CapTI]))) VLib (sc_plugin PRNil)) = OPanic /\
-  model (i_base EVerifyBlob (v_strict PMNil) VLib (sc_rev RevBadShape)) = OPanic /\
   model (i_base ENVerifyBlob (v_strict PMNil) (VCustom None false) sc_good) = OPanic /\
   model (i_base EVerify (mk_v (Some SelBadLevel) None PMNil) VLib sc_good) = OPanic.
 Proof. repeat split; reflexivity. Qed.
+
+(* before fix d78db00 a revocation validator answering with a nil entry / another number of
+   results than certificates reached a dereference; now it is an ordinary revocation failure *)
+Theorem prefix_d78db00_refuted :
+  native_v0 LStrict (sc_rev RevBadShape) [] = NPanic /\
+  native LStrict (sc_rev RevBadShape) [] =
+    NStop (XResult TRev) [(TInt, false); (TAuth, false); (TExp, false); (TTs, false); (TRev, true)] /\
+  (exists o, model (i_base EVerifyBlob (v_strict PMNil) VLib (sc_rev RevBadShape)) = ORet false None [Some o] (Some (XResult TRev)) /\
+             oc_err o = Some (XResult TRev)) /\
+  (exists o, model (i_base EVerify (mk_v (Some (SelLevel LAudit)) None PMNil) VLib (sc_rev RevBadShape)) = ORet false None [Some o] None /\
+             oc_results o = [(TInt, false); (TAuth, false); (TExp, false); (TTs, false); (TRev, true)]).
+Proof.
+  split; [reflexivity|]. split; [reflexivity|]. split; eexists; split; reflexivity.
+Qed.
 
 (* a caller-supplied verifier answering (nil, nil) makes notation.Verify return a nil outcome *)
 Theorem custom_nil_nil_verify :
